@@ -33,6 +33,7 @@
 package main
 
 import (
+	"bytes"
 	"encoding/json"
 	"fmt"
 	"os"
@@ -763,6 +764,12 @@ func bootMode(mode string) {
 	rn := newRunner(d)
 	if mode == "bound" { // fill the process-global binding cache once, single-threaded
 		rn.exec(Op{K: "Bind"})
+	}
+	for i := 0; i < nUniverse; i++ { // the harness' own slot derivation must agree with the code under test
+		if !bytes.Equal(rn.adb.GetERC20Key(uAddr[i], 3), slotRPG[i]) || !bytes.Equal(rn.adb.GetERC20Key(uAddr[i], 1), slotTokB[i]) {
+			fmt.Printf("MACHINERY: erc20Slot disagrees with AccountDB.GetERC20Key for universe address %d\n", i)
+			os.Exit(2)
+		}
 	}
 	rn.adb.AddBalance(uAddr[0], amts[1])
 	if len(rn.adb.GetData(uAddr[idxHolder], slotRPG[0])) == 0 || rn.adb.GetBalance(uAddr[0]).Cmp(amts[1]) != 0 {
